@@ -171,10 +171,62 @@ var readable = []formats.Format{formats.SPDX23JSON, formats.CDX13JSON, formats.C
 func Run(c *engine.Ctx) {
 	rw.SilenceStdout()
 	positive(c)
+	sizeClasses(c)
 	historyPairs(c)
 	declarationCube(c)
 	headers(c)
 	tokens(c)
+}
+
+// sizeClasses: detection and the parse after it on documents of 1 MiB, 5 MiB and 17 MiB (one padded top-level
+// member, before or after the declaration members): thresholds, probe windows and buffer limits are invisible to
+// documents of a few hundred bytes.
+func sizeClasses(c *engine.Ctx) {
+	c.Group("size-classes")
+	sizes := []int{1<<20 + 1, 5 << 20, 17 << 20}
+	c.Bound("size-classes", fmt.Sprintf("4 readable formats x padded member of %v bytes x {before, after} the declaration members: detected format = written format, ParseStream = ParseStreamWithOptions(Format)", sizes))
+	for _, f := range readable {
+		for _, size := range sizes {
+			for _, before := range []bool{true, false} {
+				f, size, before := f, size, before
+				c.Case(func() any {
+					return map[string]any{"format": string(f), "padding-bytes": size, "padding-before-declaration": before}
+				}, func(t *engine.T) *engine.Violation {
+					out, err := rw.Write(histDoc(), f, 0)
+					if err != nil {
+						return engine.Violate("harness", "", "write: %v", err)
+					}
+					root, err := jsonfault.Parse(out)
+					if err != nil {
+						return engine.Violate("harness", "", "parse: %v", err)
+					}
+					pad := &jsonfault.Node{Raw: `"` + strings.Repeat("p", size) + `"`}
+					if before {
+						root.Keys = append([]string{"aa-padding"}, root.Keys...)
+						root.Elems = append([]*jsonfault.Node{pad}, root.Elems...)
+					} else {
+						root.Keys = append(root.Keys, "zz-padding")
+						root.Elems = append(root.Elems, pad)
+					}
+					text := []byte(c05.Render(root, false, false))
+					got, serr := rw.Sniff(bytes.NewReader(text))
+					t.Transitions(1)
+					t.Validated(1)
+					if serr != nil || got != f {
+						return engine.Violate("written-format", "size", "a %d-byte document written as %s is detected as (%q, %v)", len(text), f, got, serr)
+					}
+					d1, e1 := rw.Read(text)
+					d2, e2 := rw.ReadAs(text, f)
+					if e1 != nil || e2 != nil || gen.Canon(d1.NodeList, nil) != gen.Canon(d2.NodeList, nil) {
+						return engine.Violate("parse-vs-explicit", "size", "a %d-byte %s document: ParseStream (%v) differs from ParseStreamWithOptions (%v)", len(text), f, e1, e2)
+					}
+					t.State(fmt.Sprint("size", f, size, before))
+					t.Outcome("size-class-ok")
+					return nil
+				})
+			}
+		}
+	}
 }
 
 func positive(c *engine.Ctx) {
